@@ -95,8 +95,20 @@ class C05(PropertyCheck):
         "QipVerif.C05.comm_rule_abstraction",
         "QipVerif.C05.comm_rule_abs_table",
     ]
-    level_text = ""
-    level_note = ""
+    level_text = ("Lean 4 theorems about the model of the gate scheduler, for every gate list, ASAP and ALAP, permutation "
+                  "allowed or not, and every permutation-valued re-ordering oracle of the scheduling pass (covers random_shuffle, "
+                  "the priority sort and the iteration order of the successor sets): the cycles partition the gate indices, gates "
+                  "in one cycle share no qubit, a qubit-sharing pair that commutation_rules does not declare commuting keeps its "
+                  "order (every qubit-sharing pair when permutation is disabled), and -- over an arbitrary monoid, under the explicit "
+                  "hypotheses H1 (disjoint gates commute) and H2 (pairs declared commuting do commute) -- the cycle-by-cycle product "
+                  "equals the original product (schedule_den_partial, via a generic trace-monoid lemma). H2 is false for the real "
+                  "library (same-name gates of families that do not commute with themselves): refuted by a concrete witness in Lean "
+                  "and on the code, recorded as a known finding. The model is tied to the code by an exact correspondence of cycles "
+                  "lists, cycle indices and dependency edges (exhaustive short sequences, random sequences up to length 14 on 5 "
+                  "qubits, recorded shuffles, repeat_num) and an exhaustive comparison of commutation_rules over its abstraction.")
+    level_note = ("Partial as named: the unitary clause is proved under H2; H1 is the embedding fact supplied centrally. Trusted: Lean "
+                  "kernel; the harness (which shadows `set` with an ascending-iteration subclass and `shuffle` with a recorder in the "
+                  "scheduler module's namespace); stability of Python's list.sort.")
     technique = ("Lean 4 proof (invariants of the dependency-graph loops and of list scheduling for an arbitrary "
                  "re-ordering oracle; trace-monoid lemma) + model/implementation correspondence")
     trusted_base = [
@@ -338,11 +350,12 @@ class C05(PropertyCheck):
         bad = cycles_checks(specs, cycles, perm)
         if bad:
             return True, bad
-        if w.get("scope") == "covered":
-            ok, pair = sc.h2_holds(specs, N, perm)
-            if not ok:
-                return False, (f"structure holds; unitary clause not evaluated: gates {pair} are declared commuting by "
-                               "commutation_rules but do not commute (hypothesis H2 of schedule_den_partial fails; known finding)")
+        if w.get("scope") == "covered" and perm:
+            pair = sc.known_class_pair(specs, N)
+            if pair is not None:
+                return False, (f"structure holds; unitary clause not evaluated: gates {pair} have the same name and equal "
+                               "targets / controls but do not commute (the class of the known finding, excluded by "
+                               "hypothesis H2 of schedule_den_partial)")
         order = [i for c in cycles for i in c]
         U0 = sc.product(specs, list(range(len(specs))), N)
         U1 = sc.product(specs, order, N)
@@ -386,8 +399,8 @@ class C05(PropertyCheck):
                 yield w, d
 
     def oracle_always(self, ctx):
-        # restricted to the class the theorems cover: scope "covered" evaluates the unitary clause only
-        # when hypothesis H2 of schedule_den_partial holds on the circuit (see notes/C05.md)
+        # restricted to the class the theorems cover: scope "covered" skips the unitary clause exactly for circuits
+        # containing a pair of the known finding's class (sc.known_class_pair); see notes/C05.md
         for _ in range(250):
             w = self._random_witness(ctx.rng)
             w["repeat"] = 0
